@@ -1,5 +1,5 @@
 (* C04_Proofs.v — lemmas and proofs about C04_DN / C04_Model. No axioms. *)
-From NV Require Import Base C04_DN C04_Model C04_RoundTrip.
+From NV Require Import Base Generated C04_DN C04_Model C04_RoundTrip.
 From Coq Require Import Permutation.
 Open Scope string_scope.
 Open Scope list_scope.
@@ -608,3 +608,8 @@ Proof. intros rev pok log ids chain H. cbn [model]. rewrite H. destruct pok; ref
 Theorem strict_rejects : forall ids chain v rej,
   model (IVerify true false ids chain) = OVerify v rej -> rej = negb (is_pass v).
 Proof. intros ids chain v rej H. cbn in H. unfold verify_obs in H. inversion H. reflexivity. Qed.
+
+(* the two constants of the model are those of /repo (internal/trustpolicy), as
+   translated into Generated.v on every run *)
+Lemma constants_generated : wildcard = gen_wildcard /\ x509_subject = gen_x509_subject.
+Proof. split; reflexivity. Qed.
